@@ -174,6 +174,22 @@ Proof.
 Qed.
 Print Assumptions C01_zone_command_compiled_runs_as_its_source_says.
 
+(* `set L row a b column c d` (both clauses, in either order; L a string, a constant or a variable; bounds ordinary values or
+   call-free expressions, `b` / `d` may be left out): whenever the reference semantics runs the statement -- a fresh matrix of
+   the light's size, the rectangle staged with the colour registers, the whole matrix sent once (cells not staged carry the
+   default colour) -- the compiled code (WAIT; name; MATRIX; the matrix operand; the two ranges in the order written into the
+   row / column registers; COLOR; END; the matrix-light operand; COLOR) runs on the machine model to the instruction behind it
+   with exactly the same events, and the states correspond again (the matrix register included). *)
+Theorem C01_matrix_command_compiled_runs_as_its_source_says :
+  forall rt mt n rows cols rows_first, inline_ok mt n rows cols = true ->
+  forall im ss s ss' fuel, sim ss s -> code_at im (m_pc s) (c_stmt rt mt false None (SSet (OpList [MatrixInline n rows cols rows_first]))) ->
+  Sem.exec rt mt fuel false ss (SSet (OpList [MatrixInline n rows cols rows_first])) = ROk SigNormal ss' ->
+  simulates im ss s ss' (c_stmt rt mt false None (SSet (OpList [MatrixInline n rows cols rows_first]))).
+Proof.
+  intros rt mt n rows cols rows_first Hz. apply atom_simulation. cbn [simple_atom simple_ops forallb simple_opnd andb]. rewrite Hz. reflexivity.
+Qed.
+Print Assumptions C01_matrix_command_compiled_runs_as_its_source_says.
+
 Example C01_program_nonvacuous :
   let p := [SDefineRoutine "blink" ["n"; "h"]
               (SBlock [SReg R_HUE (RVar "h");
